@@ -2,11 +2,13 @@ SPECIFICATION MCSpec
 CONSTANTS
   Nil = Nil
   Locked = TRUE
+  CheckUnderLock = TRUE
   MaxCallsR1 = 2
   MaxCallsR2 = 1
   KindsR1 = {"push"}
   KindsR2 = {"push"}
   MaxAppends = 1
+  NUpdaters = 1
   VaaNames = {"A", "B", "C", "D", "E", "F", "G"}
 INVARIANTS
   TypeOK
